@@ -112,7 +112,8 @@ Definition out_eqb (a b : outcome) : bool :=
 Definition oz_eqb (a b : option Z) : bool :=
   match a, b with Some x, Some y => Z.eqb x y | None, None => true | _, _ => false end.
 Inductive xstep := Xg (i : Z) (o : outcome) | Xs (i v : Z) (o : outcome) | Xw (i v : Z) (o : outcome)
-  | Xr (d : list N) | Xl (z : Z) | XW (img : list N) (n : N).
+  | Xr (d : list N) | Xl (z : Z) | XW (img : list N) (n : N)
+  | XR (h : list N) (nn rl : N) | XRstop (h : list N) (k : N) | XF (bt : Z) (o : outcome).
 Fixpoint xrun (st : bstore) (steps : list xstep) : bool :=
   match steps with
   | [] => true
@@ -122,6 +123,12 @@ Fixpoint xrun (st : bstore) (steps : list xstep) : bool :=
   | Xr d :: t => leqb (data st) d && xrun st t
   | Xl z :: t => Z.eqb (blen st) z && xrun st t
   | XW img n :: t => let r := bs_write st in leqb (fst r) img && N.eqb (snd r) n && xrun st t
+  | XR h nn rl :: t => match run_flat (bs_read st) h with
+                       | FOk (s, n) rest => N.eqb n nn && N.eqb (lenN rest) rl && xrun s t
+                       | _ => false end
+  | XRstop h k :: _ => match run_flat (bs_read st) h with
+                       | FOk _ _ => false | FErr _ => N.eqb k 1 | FPanic _ => N.eqb k 2 | FFuel => N.eqb k 3 end
+  | XF bt o :: t => let r := bs_fix st bt in out_eqb (snd r) o && xrun (fst r) t
   end.
 Definition xbs (bt ln : Z) (raw : option (list N)) (pn : option N) (steps : list xstep) : bool :=
   match bs_new bt ln raw, pn with
@@ -161,15 +168,33 @@ def c11(case, out):
         return "leqb (pack %s %s) %s" % (nlit(c[1]), nlist_hex(c[2]), nlist_hex(o[1]))
     if k == "unpack" and len(c) == 4 and len(o) == 2 and int(c[2]) <= 4096:
         return "leqb (unpack %s %d%%nat %s) %s" % (nlit(c[1]), int(c[2]), nlist_hex(c[3]), nlist_hex(o[1]))
-    if k == "bs" and len(c) >= 4 and len(o) >= 2 and o[0] == "bs":
+    if k in ("bs", "bsw") and len(c) >= 4 and len(o) >= 2 and o[0] == k:
         raw = "None" if c[3] == "nil" else "(Some %s)" % nlist_hex(c[3])
         if o[1].startswith("new!"):
             return "xbs %s %s %s (Some %s) []" % (zlit(c[1]), zlit(c[2]), raw, nlit(o[1][4:]))
-        if o[1] != "ok" or len(o) - 2 != len(c) - 4:
+        # a failed ReadFrom ends the script: the driver prints nothing after R!err / R!panic / R!fuel
+        stopped = len(o) > 2 and o[-1] in ("R!err", "R!panic", "R!fuel")
+        if o[1] != "ok" or (len(o) - 2 != len(c) - 4 and not stopped) or len(o) - 2 > len(c) - 4:
             return None
         steps = []
         for ct, ot in zip(c[4:], o[2:]):
             p = ct.split(":")
+            if p[0] == "R" and len(p) == 2:
+                oc = ""
+                if ot.startswith("R=") and "/" in ot:
+                    nn, rl = ot[2:].split("/")
+                    steps.append("XR %s %s %s" % (bytes_of_hex(p[1]), nlit(nn), nlit(rl)))
+                elif ot in ("R!err", "R!panic", "R!fuel"):
+                    steps.append("XRstop %s %s" % (bytes_of_hex(p[1]), nlit({"R!err": 1, "R!panic": 2, "R!fuel": 3}[ot])))
+                else:
+                    return None
+                continue
+            if p[0] == "F" and len(p) == 2:
+                oc = "OUnit" if ot == "F=ok" else c11_out(ot, "F")
+                if oc is None:
+                    return None
+                steps.append("XF %s %s" % (zlit(p[1]), oc))
+                continue
             if p[0] == "g" and len(p) == 2:
                 oc = c11_out(ot, "g")
                 steps.append("Xg %s %s" % (zlit(p[1]), oc))
